@@ -146,4 +146,39 @@ def outcomeClass (x : Val) : Option Val → Nat
   | none => 0
   | some y => if y = x then 1 else 2
 
+/-! ### abstract version: what the argument needs from *any* serialiser / container
+
+The real `pickle` and `gzip` are not modelled.  The safety argument only uses the four laws below;
+they are the explicit assumptions about the real libraries, and the concrete codec above satisfies
+them (`Props/C20.lean`), so they are not vacuous. -/
+
+structure Serialiser (α : Type) where
+  enc : α → List Sym
+  dec : List Sym → Option α
+
+/-- `dec_enc`: loading a stream that starts with a complete dump returns the dumped object and does
+not depend on what follows; `dec_proper_prefix`: a dump cut anywhere before its last symbol does not
+load. -/
+structure Serialiser.Lawful {α : Type} (S : Serialiser α) : Prop where
+  dec_enc : ∀ (x : α) (r : List Sym), S.dec (S.enc x ++ r) = some x
+  dec_proper_prefix : ∀ (x : α) (p : List Sym), p <+: S.enc x → p ≠ S.enc x → S.dec p = none
+
+structure Container where
+  pack : List Sym → List Sym
+  deliver : List Sym → Option (List Sym)
+
+/-- `deliver_cut`: from a cut file the reader hands out nothing but a prefix of the body that was
+packed (or rejects the file); `deliver_full`: from the complete file it hands out the whole body. -/
+structure Container.Lawful (C : Container) : Prop where
+  deliver_cut : ∀ (b : List Sym) (n : Nat),
+    C.deliver ((C.pack b).take n) = none ∨ ∃ k, C.deliver ((C.pack b).take n) = some (b.take k)
+  deliver_full : ∀ b : List Sym, C.deliver (C.pack b) = some b
+
+/-- the composed reader on the first `n` symbols of the file written for `x` -/
+def readCut {α : Type} (S : Serialiser α) (C : Container) (x : α) (n : Nat) : Option α :=
+  (C.deliver ((C.pack (S.enc x)).take n)).bind S.dec
+
+def valSerialiser : Serialiser Val := ⟨enc, decode⟩
+def blockContainer (B : Nat) : Container := ⟨pack B, deliver⟩
+
 end PhyModel.Framing
